@@ -60,6 +60,15 @@ static void quintics(unsigned long long& unit)
 {
 	const double CO[4] = {0, 1, -2, 0.5};
 	std::vector<std::pair<double, double>> ivs = {{0, 1}, {-1, 2}, {3, 3 + 1e-6}, {-500, 500}, {1, 0}, {2, -1}, {3 + 1e-6, 3}, {500, -500}, {0.5, 0.5}};
+	// limits that are neighbouring doubles, or two and three units in the last place apart (the midpoint then rounds onto a limit)
+	{
+		auto up = [](double x, int k) { for(int i = 0; i < k; i++) x = std::nextafter(x, INFINITY); return x; };
+		ivs.push_back({1e10, up(1e10, 1)});
+		ivs.push_back({up(-3e12, 1), -3e12});
+		ivs.push_back({2.5e14, up(2.5e14, 3)});
+		ivs.push_back({1.0, up(1.0, 1)});
+		ivs.push_back({-0.75, up(-0.75, 2)});
+	}
 	std::vector<double> epss = {1e-18, 1e-9, 1e-3, 1e2, -1e-3};
 	std::vector<int> depths	 = {0, 1, 2, 5, 12};
 	mc::alphabet("quintic_coefficient_vectors", 4096);
@@ -228,9 +237,9 @@ static void regular_families(unsigned long long& unit)
 		for(auto iv : std::vector<std::pair<double, double>>{{0, 1}, {-1, 0.2}, {10, 10.25}, {0, 1e-3}, {-300, -299.9}, {0, 13}})
 		{
 			double ratio = std::exp(std::fabs(w) * (iv.second - iv.first));
-			cs.push_back({"exp_w" + mc::dec(w), [w](ld x) { return expl(w * x); }, [w](ld a, ld b) { return (expl(w * b) - expl(w * a)) / w; }, iv.first, iv.second, ratio});
+			cs.push_back({"exp_w" + mc::dec(w), [w](ld x) { return expl(w * x); }, [w](ld a, ld b) { return expl(w * a) * expm1l(w * (b - a)) / w; }, iv.first, iv.second, ratio});
 			double m1 = std::cosh(w * iv.first), m2 = std::cosh(w * iv.second), mn = (iv.first * iv.second < 0) ? 1.0 : std::min(m1, m2);
-			cs.push_back({"cosh_w" + mc::dec(w), [w](ld x) { return coshl(w * x); }, [w](ld a, ld b) { return (sinhl(w * b) - sinhl(w * a)) / w; }, iv.first, iv.second, std::max(m1, m2) / mn});
+			cs.push_back({"cosh_w" + mc::dec(w), [w](ld x) { return coshl(w * x); }, [w](ld a, ld b) { return 2 * coshl(w * (a + b) / 2) * sinhl(w * (b - a) / 2) / w; }, iv.first, iv.second, std::max(m1, m2) / mn});
 		}
 	// the same members on similar copies of the intervals: x -> x*lam, w -> w/lam (the statement names no width; nothing in it
 	// depends on the absolute size of the interval)
@@ -241,15 +250,15 @@ static void regular_families(unsigned long long& unit)
 				double w = w0 / lam;
 				std::pair<double, double> iv{iv0.first * lam, iv0.second * lam};
 				double ratio = std::exp(std::fabs(w) * (iv.second - iv.first));
-				cs.push_back({"exp_w" + mc::dec(w), [w](ld x) { return expl(w * x); }, [w](ld a, ld b) { return (expl(w * b) - expl(w * a)) / w; }, iv.first, iv.second, ratio});
+				cs.push_back({"exp_w" + mc::dec(w), [w](ld x) { return expl(w * x); }, [w](ld a, ld b) { return expl(w * a) * expm1l(w * (b - a)) / w; }, iv.first, iv.second, ratio});
 				double m1 = std::cosh(w * iv.first), m2 = std::cosh(w * iv.second), mn = (iv.first * iv.second < 0) ? 1.0 : std::min(m1, m2);
-				cs.push_back({"cosh_w" + mc::dec(w), [w](ld x) { return coshl(w * x); }, [w](ld a, ld b) { return (sinhl(w * b) - sinhl(w * a)) / w; }, iv.first, iv.second, std::max(m1, m2) / mn});
+				cs.push_back({"cosh_w" + mc::dec(w), [w](ld x) { return coshl(w * x); }, [w](ld a, ld b) { return 2 * coshl(w * (a + b) / 2) * sinhl(w * (b - a) / 2) / w; }, iv.first, iv.second, std::max(m1, m2) / mn});
 			}
 	for(double p : {0.5, 2.5, -1.5, 10.0})
 		for(auto iv : std::vector<std::pair<double, double>>{{1e-6, 1.3e-6}, {4e-6, 5e-6}, {2e-9, 2.2e-9}, {1e8, 1.1e8}})
 		{
 			double ratio = std::pow(iv.second / iv.first, std::fabs(p - 4));
-			cs.push_back({"pow_p" + mc::dec(p), [p](ld x) { return powl(x, p); }, [p](ld a, ld b) { return (powl(b, p + 1) - powl(a, p + 1)) / (p + 1); }, iv.first, iv.second, ratio});
+			cs.push_back({"pow_p" + mc::dec(p), [p](ld x) { return powl(x, p); }, [p](ld a, ld b) { return powl(a, p + 1) * expm1l((p + 1) * log1pl((b - a) / a)) / (p + 1); }, iv.first, iv.second, ratio});
 		}
 	for(double s : {1.0, 0.01, 100.0, 4e-6, 1e-9, 1e7})
 		for(int k : {1, 2, 5})
@@ -258,13 +267,13 @@ static void regular_families(unsigned long long& unit)
 				double a = 0, b = wd * s;
 				double ratio = std::pow((b + s) / (a + s), k + 4);
 				cs.push_back({"invpow_s" + mc::dec(s) + "_k" + std::to_string(k), [s, k](ld x) { return powl(x + s, -k); },
-							  [s, k](ld a, ld b) { return k == 1 ? logl((b + s) / (a + s)) : (powl(b + s, 1 - k) - powl(a + s, 1 - k)) / (1 - k); }, a, b, ratio});
+							  [s, k](ld a, ld b) { ld l = log1pl((b - a) / (a + s)); return k == 1 ? l : powl(a + s, 1 - k) * expm1l((1 - k) * l) / (1 - k); }, a, b, ratio});
 			}
 	for(double p : {0.5, 1.5, 2.5, 3.5, 6.0, -1.5, 10.0})
 		for(auto iv : std::vector<std::pair<double, double>>{{1, 1.2}, {1, 2}, {100, 110}, {1e-3, 1.3e-3}, {5, 5.01}})
 		{
 			double ratio = std::pow(iv.second / iv.first, std::fabs(p - 4));
-			cs.push_back({"pow_p" + mc::dec(p), [p](ld x) { return powl(x, p); }, [p](ld a, ld b) { return (powl(b, p + 1) - powl(a, p + 1)) / (p + 1); }, iv.first, iv.second, ratio});
+			cs.push_back({"pow_p" + mc::dec(p), [p](ld x) { return powl(x, p); }, [p](ld a, ld b) { return powl(a, p + 1) * expm1l((p + 1) * log1pl((b - a) / a)) / (p + 1); }, iv.first, iv.second, ratio});
 		}
 	long long admitted = 0, cases = 0, evals = 0, bott = 0;
 	for(auto& c : cs)
@@ -274,10 +283,13 @@ static void regular_families(unsigned long long& unit)
 		admitted++;
 		ld ex	   = c.exact(c.a, c.b);
 		ld fmax	   = std::max(fabsl(c.f(c.a)), fabsl(c.f(c.b)));
-		for(double rel : {1e-2, 1e-4, 1e-7, 1e-10, 1e-13})
+		// (requests far below the resolution of the result included: such a call either refines to the depth bound, where the error
+		// clause is silent, or it must meet the request)
+		for(double rel : {1e-2, 1e-4, 1e-7, 1e-10, 1e-13, 1e-16, 1e-18, 1e-21})
 			for(int depth : {20, 8, 3})
 				for(int rev = 0; rev < 2; rev++)
 				{
+					if(rel < 1e-13 && depth == 20 && !mc::thorough()) continue;	// 2^22 evaluations per call
 					double eps = (double)(rel * fabsl(ex));
 					auto f	   = [&c](double x) { return (double)c.f(x); };
 					bool bottomed = false;
